@@ -94,7 +94,10 @@ fn slices<T: E>(rng: &mut Rng, maxlen: usize, rep: &mut Report) {
                     let nv = T::make(rng);
                     re[i] = nv;
                     drop(re);
-                    if m[i] != nv {
+                    // the view that was re-borrowed from is untouched by the re-borrow
+                    if m.len() != l || m.as_ptr() as usize != mp as usize {
+                        bad!("C12:slicemut-reborrow", format!("after a re-borrow the original CSliceMut reports len {} (was {})", m.len(), l));
+                    } else if m[i] != nv {
                         bad!("C12:slicemut-write-lost", "write through reborrowed CSliceMut not visible");
                     }
                 }
